@@ -907,7 +907,7 @@ func (e *Enc) instr(in ssa.Instruction) {
 			s := e.term(in.X)
 			e.safety("index", and("(bvsle #x0000000000000000 "+idx.S+")", "(bvslt "+idx.S+" (s-len "+s.S+"))"),
 				fmt.Sprintf("index out of range: %s[%s]", in.X.Name(), in.Index.Name()), in.Pos())
-			e.vals[in] = &Addr{base: "(s-arr " + s.S + ")", isElem: true, idx: "(bvadd (s-off " + s.S + ") " + idx.S + ")", elem: et}
+			e.vals[in] = &Addr{base: "(s-arr " + s.S + ")", isElem: true, idx: eidx("(s-off "+s.S+")", idx.S), elem: et}
 		case *types.Pointer:
 			at := xt.Elem().Underlying().(*types.Array)
 			p := e.term(in.X)
@@ -1482,7 +1482,7 @@ func (e *Enc) trAddr(env *Env, x ast.Expr) []*Addr {
 		st, ok := s.T.Underlying().(*types.Slice)
 		if ok {
 			i := env.tr(x.Index, types.Typ[types.Int])
-			return []*Addr{{base: "(s-arr " + s.S + ")", isElem: true, idx: "(bvadd (s-off " + s.S + ") " + i.S + ")", elem: st.Elem()}}
+			return []*Addr{{base: "(s-arr " + s.S + ")", isElem: true, idx: eidx("(s-off "+s.S+")", i.S), elem: st.Elem()}}
 		}
 	case *ast.CallExpr:
 		if id, ok := x.Fun.(*ast.Ident); ok {
